@@ -68,6 +68,11 @@ func (p *c13prop) Plan(tier string, seed int64) []core.Segment {
 		}
 		// hundreds of Resets of one parser object
 		segs = append(segs, core.Segment{Kind: "manyresets:" + t, N: 6 * tierScale(tier, 6), Chunk: 2})
+		// a WrappedParser reused after a first stream of 0.3-1 MiB
+		segs = append(segs, core.Segment{Kind: "bigwrapreset:" + t, N: 4 * tierScale(tier, 6), Chunk: 1})
+		// the old life ends and the new one begins with a reader that has
+		// nothing for 50-99 calls in a row
+		segs = append(segs, core.Segment{Kind: "stallreset:" + t, N: 200 * m})
 	}
 	reps := int64(1)
 	if tier == "thorough" {
@@ -220,7 +225,29 @@ func (p *c13prop) Gen(kind string, idx int64, seed int64, tier string) core.Case
 			cc.H2 = append(cc.H2, POp{K: "write", B: 20 + r.Intn(100)}, POp{K: "parse"}, POp{K: "parse"}, POp{K: "parse"})
 			return core.MkCase(p.id, kind, idx, seed, tier, cc)
 		}
-		if class == "wrapreset" {
+		if class == "stallreset" {
+			if c.BufferSize < 300 {
+				c.BufferSize = 300 + r.Intn(700)
+				c.ShrinkSize = r.Intn(c.BufferSize)
+			}
+			cc.Cfg = c
+			cc.S1 = cc.S1[:100+r.Intn(100)]
+			cc.H1 = []POp{{K: "readfrom", A: 0, B: len(cc.S1), Steps: []RStep{{N: 40 + r.Intn(50)}, {N: 50 + r.Intn(50), Err: 3}, {N: 0, Err: 1}}}, {K: "parse"}, {K: "parse"}}
+			if r.Intn(2) == 0 {
+				// the reader of the old life never came to an end
+				cc.H1[0].Steps[2] = RStep{N: 0, Err: 2}
+			}
+			reset := POp{K: "reset", A: 0}
+			if r.Intn(3) == 0 {
+				reset = POp{K: "reset", A: 1 + r.Intn(2), B: r.Intn(40), C: r.Intn(20)}
+			}
+			cc.H2 = []POp{reset, {K: "readfrom", A: 0, B: 200, Steps: []RStep{{N: 50 + r.Intn(50), Err: 3}, {N: 30}, {N: 50 + r.Intn(49), Err: 3}, {N: 200}}}}
+			for i := 0; i < 6; i++ {
+				cc.H2 = append(cc.H2, POp{K: "parse", A: r.Intn(2)})
+			}
+			return core.MkCase(p.id, kind, idx, seed, tier, cc)
+		}
+		if class == "wrapreset" || class == "bigwrapreset" {
 			// a WrappedParser that served a first stream (left after some
 			// blocks, at io.EOF, or after its reader failed for good) gets a
 			// new reader through Reset and must then behave like a new
@@ -233,6 +260,24 @@ func (p *c13prop) Gen(kind string, idx int64, seed int64, tier string) core.Case
 			cc.S1 = cc.S1[:len(cc.S1)%700]
 			cc.S2 = cc.S2[:len(cc.S2)%700]
 			plan1 := GenReadPlan(r, false)
+			if class == "bigwrapreset" {
+				c = gen.Cfg{Type: typ}
+				if idx%2 == 1 {
+					c = gen.SmallCfg(r, typ, gen.Opts{})
+				}
+				c.BufferSize = []int{0, 1 << 18, 1 << 20, 300000}[r.Intn(4)]
+				c.ShrinkSize, c.WindowSize, c.BlockSize = 0, []int{0, 1 << 16}[r.Intn(2)], []int{0, 1 << 16, 100000}[r.Intn(3)]
+				n1, n2 := 300000+r.Intn(700000), 300000+r.Intn(200000)
+				if typ == "GSAP" || typ == "OSAP" {
+					c.BufferSize, c.WindowSize = 1<<17, 1<<16
+					n1, n2 = 200000+r.Intn(100000), 150000+r.Intn(100000)
+				}
+				c.TameBig()
+				cc.Cfg = c
+				_, cc.S1 = gen.Bytes(r, n1, c.Hint())
+				_, cc.S2 = gen.Bytes(r, n2, c.Hint())
+				plan1 = nil
+			}
 			end := r.Intn(4) // 0 EOF reached, 1 left after some calls, 2 reader fails for good, 3 one-shot error
 			switch end {
 			case 2:
@@ -244,6 +289,9 @@ func (p *c13prop) Gen(kind string, idx int64, seed int64, tier string) core.Case
 			}
 			cc.H1 = []POp{{K: "wparse", A: r.Intn(2), B: end, C: 1 + r.Intn(12), Steps: plan1}}
 			cc.H2 = []POp{{K: "wparse", A: r.Intn(2), Steps: GenReadPlan(r, false)}}
+			if class == "bigwrapreset" {
+				cc.H2[0].Steps = nil
+			}
 			return core.MkCase(p.id, kind, idx, seed, tier, cc)
 		}
 		if class == "margin" {
@@ -627,7 +675,7 @@ func (p *c13prop) Run(c *core.Case, st *core.Stats) []core.Violation {
 		_, rest := splitKind(c.Kind)
 		class, _ = splitKind(rest)
 	}
-	if class == "wrapreset" {
+	if class == "wrapreset" || class == "bigwrapreset" {
 		run := func(used bool) ([]string, error) {
 			ps, err := NewParserFor(cc.Cfg)
 			if err != nil {
@@ -739,7 +787,7 @@ func (p *c13prop) Run(c *core.Case, st *core.Stats) []core.Violation {
 	}
 	main := &PCase{Cfg: cc.Cfg, Stream: cc.S2, Ops: cc.H2}
 	var pre *PCase
-	if class == "reset" || class == "zerostart" || class == "margin" || class == "ntlreset" || class == "bighash" || class == "manyresets" {
+	if class == "reset" || class == "zerostart" || class == "margin" || class == "ntlreset" || class == "bighash" || class == "manyresets" || class == "stallreset" {
 		pre = &PCase{Cfg: cc.Cfg, Stream: cc.S1, Ops: cc.H1}
 	}
 	// run A hands slices to Reset whose spare capacity holds garbage, run B
